@@ -49,7 +49,7 @@ man = {
              "proven from the path (lengths, integer ranges, classes). Before the rules run, three source-level pre-passes undo what routine "
              "maintenance does to the anchors: consistent renames of private names (sa/names.py), newer syntax (sa/desugar.py), and moves of "
              "definitions between modules, reordered or keyword-only parameters, helpers extracted across modules and called in statement / tail position, results handed to the caller to store (sa/moves.py). A check may import another property's "
-             "obligations as premises (C01<-C02,C04,C05,C10,C11,C12,C13; C05<-C04; C06<-C04,C05,C07; C07<-C06; C08<-C04,C07; C10<-C20.e; C11<-C12.a; C13<-C14,C12.a,C12.e; C15<-C12.a; C16<-C15.d; C17<-C18; C19<-C06.d; C20<-C04). "
+             "obligations as premises (C01<-C02,C04,C05,C10,C11,C12,C13; C05<-C04; C06<-C04,C05,C07; C07<-C06; C08<-C04,C07; C10<-C20.e; C11<-C12.a; C13<-C14,C12.a,C12.e; C15<-C12.a; C16<-C15.d; C17<-C18; C19<-C06.d; C20<-C04,C10.g). "
              "The checks were also run against 554 independently written behaviour-preserving changes and feature additions (neutral/: all silent) "
              "and 359 independently written breaking changes (seeded/: each reported by its own property); see DESIGN.md section 8.",
     "not_applicable": na,
